@@ -251,6 +251,13 @@ func doReplay(prop, path string) int {
 		fmt.Println("not-replayable: empty case")
 		return 3
 	}
+	// the IR commands name the same library calls as wop / rop / cks (the model side differs: the function body as translated
+	// into GoIR from the source instead of the hand-written primitive model)
+	irPlain := false
+	if (toks[0] == "irw" || toks[0] == "irr") && len(toks) > 2 {
+		irPlain = toks[1] == "1"
+		toks = append([]string{map[string]string{"irw": "wop", "irr": "rop"}[toks[0]]}, toks[2:]...)
+	}
 	switch toks[0] {
 	case "enc", "penc", "encns":
 		pre, err1 := parseHex(toks[1])
@@ -362,7 +369,7 @@ func doReplay(prop, path string) int {
 				fmt.Println("not-replayable: malformed case")
 				return 3
 			}
-			class, consumed, v, rc, _ := goRop(op, kind, false, data, BufMode{})
+			class, consumed, v, rc, _ := goRop(op, kind, irPlain, data, BufMode{})
 			if class == "ok" {
 				p := ""
 				if rc {
@@ -378,7 +385,7 @@ func doReplay(prop, path string) int {
 				fmt.Println("not-replayable: malformed case")
 				return 3
 			}
-			class, app, pc, _ := goWop(op, kind, false, v, nil, BufMode{})
+			class, app, pc, _ := goWop(op, kind, irPlain, v, nil, BufMode{})
 			if class == "ok" {
 				p := ""
 				if pc {
